@@ -57,6 +57,8 @@ def all_ops():
     ops.append({"op": "remove", "name": b"n2"})
     ops.append({"op": "disable", "name": b"n1"})
     ops.append({"op": "update", "name": b"n1", "newname": b"n3", "def": 2})
+    ops.append({"op": "replace", "name": "n1", "newname": b"n2", "def": 3, "description": None})
+    ops.append({"op": "update", "name": "n2", "newname": b"n1", "def": 0})
     return ops
 
 
